@@ -1031,7 +1031,8 @@ class AstEval:
         else:
             for arg1 in arg.orelse:
                 val = await self.aeval(arg1)
-                if isinstance(val, EvalReturn):
+                if isinstance(val, EvalStopFlow):
+                    # return, or a break/continue that belongs to an enclosing loop
                     return val
         return None
 
@@ -1053,7 +1054,8 @@ class AstEval:
         else:
             for arg1 in arg.orelse:
                 val = await self.aeval(arg1)
-                if isinstance(val, EvalReturn):
+                if isinstance(val, EvalStopFlow):
+                    # return, or a break/continue that belongs to an enclosing loop
                     return val
         return None
 
